@@ -189,6 +189,16 @@ impl<S: Clone + Debug> SymbolTable<S> {
     }
 
     pub fn children(&self, nx: SymbolIndex) -> HashMap<Identifier, SymbolIndex> {
+        #[cfg(mos_verif)]
+        if std::env::var_os("MOS_VERIF_HASHPERM").is_some() {
+            return crate::verif_hashperm::reseat_map(
+                "children",
+                self.graph
+                    .edges_directed(nx, Direction::Outgoing)
+                    .map(|edge| (edge.weight().clone(), edge.target()))
+                    .collect(),
+            );
+        }
         self.graph
             .edges_directed(nx, Direction::Outgoing)
             .map(|edge| (edge.weight().clone(), edge.target()))
@@ -384,6 +394,8 @@ impl<S: Clone + Debug> SymbolTable<S> {
     pub fn all(&self) -> HashMap<IdentifierPath, (SymbolIndex, &S)> {
         let mut result = HashMap::new();
         self.all_impl(&mut result, self.root, "".into());
+        #[cfg(mos_verif)]
+        let result = crate::verif_hashperm::reseat_map("all", result);
         result
     }
 
